@@ -28,6 +28,12 @@ use crate::track;
 #[derive(Copy, Clone, Debug, Serialize, Deserialize, PartialEq, Eq)]
 pub enum Create {
     Open,
+    /// `OpenOptions::open_temp_file` (O_TMPFILE), kind set before the other
+    /// builder calls.
+    OpenTemp,
+    /// `open_file` (regular descriptors only) / `OpenOptions` with the kind
+    /// set first and other settings after it.
+    OpenKindFirst,
     Socket,
     Pipe,
     /// Needs a regular listener descriptor.
@@ -303,6 +309,14 @@ impl<'c> Exec<'c> {
             match what {
                 Create::Open => {
                     let f = a10::fs::OpenOptions::new().read().kind(kind).open(sq, PathBuf::from("/verif/sim/file"));
+                    Fut::Fds(Box::pin(async move { f.await.map(|fd| vec![fd]) }))
+                }
+                Create::OpenTemp => {
+                    let f = a10::fs::OpenOptions::new().kind(kind).write().open_temp_file(sq, PathBuf::from("/verif/sim"));
+                    Fut::Fds(Box::pin(async move { f.await.map(|fd| vec![fd]) }))
+                }
+                Create::OpenKindFirst => {
+                    let f = a10::fs::OpenOptions::new().kind(kind).read().write().append().create().open(sq, PathBuf::from("/verif/sim/file2"));
                     Fut::Fds(Box::pin(async move { f.await.map(|fd| vec![fd]) }))
                 }
                 Create::Socket => {
@@ -800,6 +814,8 @@ pub struct C07;
 fn fstep() -> impl Strategy<Value = FStep> {
     let what = prop_oneof![
         3 => Just(Create::Open),
+        2 => Just(Create::OpenTemp),
+        1 => Just(Create::OpenKindFirst),
         3 => Just(Create::Socket),
         2 => Just(Create::Pipe),
         3 => Just(Create::Accept),
